@@ -33,6 +33,23 @@ def wf_value(pod_table, o):
     return False
 
 
+def fresh_or_argument(args, res):
+    """the result is an object allocated by this call, or one of the arguments handed back --
+    never a long-lived shared object (whose span the wrapper would then rewrite on every use)"""
+    if res is None or not hasattr(res, "cls"):
+        return True
+    if getattr(res, "ref", None) is not None:            # native replay: real objects
+        import sys
+        if any(res.ref is getattr(a, "ref", None) for a in args):
+            return True
+        for mn in ("ctparse.time.rules", "ctparse.types", "ctparse.rule"):
+            mod = sys.modules.get(mn)
+            if mod is not None and any(res.ref is v for v in vars(mod).values()):
+                return False
+        return True
+    return bool(getattr(res, "fresh", False)) or any(res is a for a in args)
+
+
 def generic_clauses(pod_table, res):
     out = [("result-kind", ["C01", "C02"], kind(res) in ("None", "Time", "Interval", "Duration")),
            ("wf-result", ["C02", "C01"], True if res is None else wf_value(pod_table, res))]
@@ -45,7 +62,15 @@ def rule_clauses(name, pod_table, ghost, ts, args, res):
     """all clauses of the contract of rule `name` for one (arguments, result) pair"""
     from contracts.rule_specs import SPECS
     out = generic_clauses(pod_table, res)
+    out.append(("result-fresh-or-argument", ["C12", "C15"], fresh_or_argument(args, res)))
+    if name == "ruleEarlyLatePOD":
+        out = [(n, p + ["C19"] if n == "wf-result" else p, g) for n, p, g in out]
     sp = SPECS.get(name)
     if sp is not None:
+        import inspect
+        if len(inspect.signature(sp).parameters) != len(args) + 3:
+            from pyvc.values import Unsupported
+            raise Unsupported("the contract of %s expects %d arguments, the definition has %d (redefined rule?)"
+                              % (name, len(inspect.signature(sp).parameters) - 3, len(args)))
         out.extend(sp(Env(pod_table, ghost), ts, *(list(args) + [res])))
     return out
